@@ -51,6 +51,8 @@ type sop struct {
 	Key   string `json:"key,omitempty"`
 	MD    int    `json:"md,omitempty"`
 	Size  int    `json:"size,omitempty"`
+	N     int    `json:"n,omitempty"`     // HSeq: bytes to read sequentially (0 = to EOF)
+	First string `json:"first,omitempty"` // HSeq: operation issued on the handle before the sequential read
 	Fixed bool   `json:"fixed,omitempty"` // executed right after the previous op (no flush steps in between)
 }
 
@@ -88,6 +90,8 @@ func prefix(sizeA int) []sop {
 		{Op: "SetMD", Key: "A", MD: 0, Fixed: true},
 		{Op: "Mark", Key: "A", Fixed: true},
 		{Op: "OpenH", Key: "A", Fixed: true},
+		// part of the blob is consumed sequentially while it is still in memory
+		{Op: "HSeq", Key: "A", N: 8 * (10 + sizeA%23), Fixed: true},
 	}
 }
 
@@ -107,6 +111,7 @@ func alphabet(sizeA, sizeB int) [][]sop {
 		{{Op: "Create", Key: "B", Size: sizeB}, {Op: "Mark", Key: "B", Fixed: true}},
 		{{Op: "HasC", Key: "A"}},
 		{{Op: "ListC"}},
+		{{Op: "HSeq", Key: "A", N: 96}},
 	}
 }
 
@@ -122,7 +127,9 @@ func buildScenario(cfg rigCfg, sizeA, sizeB int, body []int) scenario {
 	return scenario{Cfg: cfg, Ops: ops}
 }
 
-func epilogue(keys []string, vanish bool) []sop {
+var firstOps = []string{"size", "readat", "seekcur", ""}
+
+func epilogue(keys []string, vanish bool, variant int) []sop {
 	var ops []sop
 	add := func(o sop) { o.Fixed = true; ops = append(ops, o) }
 	add(sop{Op: "Drain"})
@@ -140,10 +147,13 @@ func epilogue(keys []string, vanish bool) []sop {
 		add(sop{Op: "Mark", Key: p})
 		add(sop{Op: "Drain"})
 	}
-	for _, k := range keys {
+	for i, k := range keys {
 		add(sop{Op: "Read", Key: k})
 		add(sop{Op: "GetMD", Key: k, MD: 0})
 		add(sop{Op: "GetMD", Key: k, MD: 1})
+		// the retained handle goes on after the eviction: first a Size / ReadAt /
+		// Seek(0,current) / nothing, then sequential Reads to EOF
+		add(sop{Op: "HSeq", Key: k, N: 0, First: firstOps[(variant+i)%len(firstOps)]})
 		add(sop{Op: "HRead", Key: k})
 	}
 	add(sop{Op: "List"})
@@ -211,6 +221,11 @@ func (r *rig) exec(c int, op sop, hs *handleSet) []hop {
 			return []hop{h}
 		}
 		return []hop{r.doRead(c, op.Key)}
+	case "HSeq":
+		if hd := hs.get(op.Key); hd != nil {
+			return r.seqHandle(c, hd, op.N, op.First)
+		}
+		return nil
 	case "Has":
 		return []hop{r.doHas(c, op.Key, scopeAny)}
 	case "HasC":
@@ -518,7 +533,11 @@ func runScripted(t testing.TB, run *ev.Run, base string, sc scenario, ks []int) 
 		klist = append(klist, k)
 	}
 	sort.Strings(klist)
-	all = append(all, epilogue(klist, sc.Cfg.Vanish)...)
+	variant := len(sc.Ops)
+	for _, k := range ks {
+		variant += k
+	}
+	all = append(all, epilogue(klist, sc.Cfg.Vanish, variant)...)
 	di := 0
 	for _, op := range all {
 		if or.viol != nil {
@@ -708,8 +727,10 @@ func freeOp(rnd *rand.Rand, keys []string) sop {
 		return sop{Op: "Read", Key: k}
 	case x < 52:
 		return sop{Op: "OpenH", Key: k}
-	case x < 60:
+	case x < 55:
 		return sop{Op: "HRead", Key: k}
+	case x < 60:
+		return sop{Op: "HSeq", Key: k, N: 8 * (4 + rnd.Intn(30)), First: firstOps[rnd.Intn(len(firstOps))]}
 	case x < 64:
 		return sop{Op: "HasC", Key: k}
 	case x < 66:
